@@ -248,6 +248,15 @@ def finish(ctx):
     }
     with open(os.path.join(evdir, ctx.prop_id + ".json"), "w") as f:
         json.dump(ev, f, indent=1, default=str)
+    # remove this process's generated Coq files (sources of failed shards are kept for inspection)
+    try:
+        mine = "_p%d" % os.getpid()
+        keep = {o["detail"] for o in broken}
+        for fn in os.listdir(CASES):
+            if mine in fn and not any(fn.rsplit(".", 1)[0] in d for d in keep):
+                os.unlink(os.path.join(CASES, fn))
+    except OSError:
+        pass
     for ln in lines:
         print(ln, flush=True)
     print("[%s] tier=%s seed=%d obligations=%d/%d evaluations=%d nontrivial=%d violations=%d wall=%.1fs" % (
@@ -374,7 +383,7 @@ def coq_obligations(ctx, props_file, extra_targets=(), allowed_axioms=()):
     thms = THM_RE.findall(src)
     mod = "PV." + props_file[:-2].replace("/", ".")
     os.makedirs(CASES, exist_ok=True)
-    audit = os.path.join(CASES, "Audit_%s.v" % ctx.prop_id)
+    audit = os.path.join(CASES, "Audit_%s_p%d.v" % (ctx.prop_id, os.getpid()))
     with open(audit, "w") as f:
         f.write("Require Import %s.\n" % mod)
         for th in thms:
@@ -427,12 +436,10 @@ def run_coq_cases(ctx, name, imports, case_type, check_fn, case_lits, shard=400,
     """Evaluate `check_fn : case_type -> bool` on every literal in case_lits (strings).
     Returns the sorted list of indices on which the model disagrees, or None if a shard failed to run."""
     os.makedirs(CASES, exist_ok=True)
-    for fn in os.listdir(CASES):
-        if fn.startswith("K_%s_%s_" % (ctx.prop_id, name)):
-            os.unlink(os.path.join(CASES, fn))
+    tag = "K_%s_%s_p%d_" % (ctx.prop_id, re.sub(r"\W", "_", name), os.getpid())   # per-process: concurrent runs do not collide
     shards = []
     for k in range(0, len(case_lits), shard):
-        fn = "K_%s_%s_%d.v" % (ctx.prop_id, name, k // shard)
+        fn = "%s%d.v" % (tag, k // shard)
         with open(os.path.join(CASES, fn), "w") as f:
             f.write("From Coq Require Import ZArith QArith List Bool.\nImport ListNotations.\n")
             f.write("From PV Require Import %s.\n" % " ".join(imports))
@@ -462,10 +469,11 @@ def run_coq_cases(ctx, name, imports, case_type, check_fn, case_lits, shard=400,
             body = m.group(1).strip()
             if body:
                 bad.extend(k + int(x.replace("%nat", "")) for x in body.split(";"))
+    failed_files = {f[0][:-2] for f in failed}
     for fn in os.listdir(CASES):
-        if fn.startswith("K_%s_%s_" % (ctx.prop_id, name)) and not fn.endswith(".v"):
+        if fn.startswith(tag) and not any(fn.startswith(ff) for ff in failed_files):
             try:
-                os.unlink(os.path.join(CASES, fn))
+                os.unlink(os.path.join(CASES, fn))   # keep only the sources of shards that failed to evaluate
             except OSError:
                 pass
     ctx.checker_cmds.append("coqc Cases/K_%s_%s_*.v (%d shards, vm_compute)" % (ctx.prop_id, name, len(shards)))
@@ -479,7 +487,7 @@ def run_coq_cases(ctx, name, imports, case_type, check_fn, case_lits, shard=400,
 def coq_eval(ctx, name, imports, terms, timeout=600, prelude=""):
     """Evaluate a list of Coq terms with vm_compute; returns list of printed results (whitespace-collapsed)."""
     os.makedirs(CASES, exist_ok=True)
-    fn = "E_%s_%s.v" % (ctx.prop_id, name)
+    fn = "E_%s_%s_p%d.v" % (ctx.prop_id, re.sub(r"\W", "_", name), os.getpid())
     with open(os.path.join(CASES, fn), "w") as f:
         f.write("From Coq Require Import ZArith QArith List Bool.\nImport ListNotations.\n")
         f.write("From PV Require Import %s.\nOpen Scope Z_scope.\n%s\n" % (" ".join(imports), prelude))
